@@ -44,7 +44,7 @@ def run(ctx):
     g = ctx.tlc(sdir, "Gen_Registry.tla", cfg, timeout=3000, workers=8, count=False)
     if g["inv"]:
         raise vlib.InfraError("generator failed: %s" % g["out"][-2000:])
-    nsim = 3000 if thorough else 60
+    nsim = 400 if thorough else 60
     s = ctx.tlc(sdir, "Gen_Registry.tla", "Gen_Registry_sim.cfg", timeout=3000, workers=4, count=False,
                 simulate="num=%d" % nsim, depth=17, deadlock=False, extra=["-seed", str(ctx.seed)])
     seen = set()
